@@ -460,6 +460,9 @@ class SCase(Case):
         fill = [i for i, ch in enumerate(chunks) if ch[1] == 0 and ch[0] > 0]
         super().__init__(name, chunks, fill, b"", "s", doff=doff, ht=ht, kind=kind, expect=expect, group=group)
         self.transfers = transfers
+        # a re-scan step recomputes every flag from the file: chunks flagged failed at the start become missing too
+        if any(len(t) > 3 and t[3] and (t[3] is True or "r" in t[3]) for t in transfers):
+            self.ridx = [i for i, ch in enumerate(chunks) if ch[0] > 0 and ch[1] in (0, 2)]
 
     def line(self):
         def j(xs):
@@ -552,8 +555,13 @@ def gen_sessions(tier, rng):
             hb, bb, _ = response_spans(chunks, want0, 24, mode_for(mode, chunks, want0), corrupt=(t, chunks[t][0] // 2))
             after = want0[kbad + 1:]
             for rs in (False, True):
+                # what zck_get_missing_range asks for in the retry: without a re-scan the failed chunk (flag -1) is not
+                # requested again; the re-scan (zck_find_valid_chunks + zck_reset_failed_chunks) recomputes every flag from the
+                # file, so the chunk that just failed AND every chunk that was flagged failed from the start are missing again
                 want1 = ([t] if rs else []) + after
-                want1.sort()
+                if rs:
+                    want1 += [i for i, ch in enumerate(chunks) if ch[1] == 2 and ch[0] > 0]
+                want1 = sorted(set(want1))
                 h2, b2, _ = response_spans(chunks, want1, 24, mode_for(mode, chunks, want1))
                 c = SCase("sess-corrupt:%d:%s:bad=%d:%s" % (ti, mode, t, "rescan" if rs else "noscan"), chunks,
                           [(hb, bb, ("w", "k1", "k7")[kbad % 3]), (h2, b2, "k3", rs)])
